@@ -1554,9 +1554,19 @@ class _StatefulMultiProcessingDataLoaderIter(_StatefulBaseDataLoaderIter):
         # Update latest worker state
         if state_dict is not None:
             self._update_worker_snapshot(self._worker_key(state_dict[_WORKER_ID]), state_dict)
-        if self._snapshot_interval and ((self._num_yielded + 1) % self._snapshot_interval == 0):
+        if self._snapshot_interval and self._snapshot_due():
             self._take_snapshot()
         return data
+
+    def _snapshot_due(self):
+        if self._dataset_kind == _DatasetKind.Iterable:
+            return (self._num_yielded + 1) % self._snapshot_interval == 0
+        # Map-style: main snapshots are recorded per dispatched task, and a batch that raised is never
+        # yielded, so counting yielded batches drifts away from the tasks that carry a main snapshot.
+        # A snapshot is due exactly when the batch being yielded is such a task.
+        while len(self._main_snapshots) and self._main_snapshots[0][0] < self._rcvd_idx - 1:
+            self._main_snapshots.popleft()
+        return len(self._main_snapshots) > 0 and self._main_snapshots[0][0] == self._rcvd_idx - 1
 
     def _take_snapshot(self):
         main_snapshot_idx = None
